@@ -509,9 +509,10 @@ pub fn c13(seed: u64, thorough: bool) -> Scenario {
     b.sc.net.base_lat_us = (lo, lo + b.r.range(500, 25_000));
     b.sc.net.jitter_us = b.r.range(0, 4_000);
     b.sc.net.connect_lat_us = (200, b.r.range(500, 10_000));
+    let gc = *b.r.pick(&[5u64, 50, 10_000]);
     for p in b.sc.params.iter_mut() {
         p.sync_retry_delay = *b.r.pick(&[500u64, 1_000, 2_000]);
-        p.gc_depth = 10_000; // garbage collection of pending sync requests is out of scope here
+        p.gc_depth = gc;
     }
     let load_end = b.r.range(2_000_000, 6_000_000);
     b.boots(0);
